@@ -1,7 +1,7 @@
 META = {
     "level": "model_checking",
     "technique": "TLA+ state machine of the authenticate() loop (AuthStrategy.tla: NextSource/Attempt/Record/Finish) model-checked by TLC over every source list up to a bound; each TLC-emitted program replayed on the real AuthStrategy.authenticate with recording stub sources; recorded call/result traces of random longer programs validated by TLC against the same clause operators (AuthStrategy_Trace.tla)",
-    "text": "TLC enumerates every list of source outcomes (a returned value - empty list, non-empty list, None - or an exception kind) up to the bound, checks on the model that calls happen in production order, stop at the first success, that the result lists exactly the attempted sources with their outcomes and that AuthFailure is raised iff none succeeded, and emits each program with the expected calls/result; every program is run on the real class (generator, list and iterator get_sources) and the observed call order, outcome and AuthResult entries (object identity of sources, return values and exception instances) are judged by TLC; seeded random programs of length 0..8 over 11 kinds of returned value ([], non-empty list, None, strings, object, 0, False, True, (), dict) and 17 exception kinds are judged the same way",
+    "text": "TLC enumerates every list of source outcomes (a returned value - empty list, non-empty list, None - or an exception kind) up to the bound, checks on the model that calls happen in production order, stop at the first success, that the result lists exactly the attempted sources with their outcomes and that AuthFailure is raised iff none succeeded, and emits each program with the expected calls/result; every program is run on the real class (generator, list and iterator get_sources) and the observed call order, outcome and AuthResult entries (object identity of sources, return values and exception instances) are judged by TLC; fixed and seeded random sequences of 2-3 authenticate() calls on ONE strategy object (each call with its own sources, judged against those only; the model has NextCall and a shared_result mutation TLC refutes) are judged the same way; seeded random programs of length 0..8 over 11 kinds of returned value ([], non-empty list, None, strings, object, 0, False, True, (), dict) and 17 exception kinds are judged the same way",
     "note": "trusted: TLC, the stub sources and the identity look-ups that turn AuthResult entries into (source index, kind, origin) records; exceptions are subclasses of Exception (BaseException such as KeyboardInterrupt is outside the statement); a success is a source whose authenticate() returns, whatever the value; the AuthResult must hold that very object unchanged",
 }
 import random
@@ -12,9 +12,25 @@ MODEL_OUTCOMES = ["ok", "ok_list", "ok_none", "AuthenticationException", "OSErro
 MODEL_RETURNS = {"ok", "ok_list", "ok_none"}
 MUTATIONS = {"nonempty_list_not_success": "FinalOK", "no_break": "CallsLegal", "drop_failures": "ResultTracksCalls", "never_raises": "FinalOK",
              "reversed": "CallsLegal"}
+KEEP = ("prog", "events", "final", "earlier_changed")
+
+# the fixed part of the history dimension: two or three authenticate() calls on ONE strategy object, each with its own sources
+CALL_SEQUENCES = [[a, b] for a in (["ok"], ["AuthenticationException"], ["OSError", "ok_list"], [])
+                  for b in (["ok_none"], ["ValueError", "ok"], ["SSHException", "AuthenticationException"], [])] + [
+    [["AuthenticationException"], ["AuthenticationException", "OSError"], ["ok"]],
+    [["ok"], ["ok"], ["ok"]], [["EOFError"], [], ["BadAuthenticationType", "ok_str"]], [[], ["ok_false"], ["KeyError"]]]
 
 
-def describe(rec):
+def as_trace(rec):
+    """a single call record or a sequence of calls, in the shape AuthStrategy_Trace.tla reads"""
+    return {"calls": [{k: x[k] for k in KEEP} for x in (rec["calls"] if "calls" in rec else [rec])]}
+
+
+def describe(rec, call=None):
+    if "calls" in rec:
+        n = call or len(rec["calls"])
+        return "call %d of %d on one strategy object (earlier calls had sources %s): %s" % (
+            n, len(rec["calls"]), rec["progs"][:n - 1], describe(rec["calls"][n - 1]))
     return "sources %s via %s: calls %s, %s, result %s" % (
         rec["prog"], rec["style"], [e["src"] for e in rec["events"]], rec["final"]["status"],
         [(e["src"], e["kind"], e["of"]) for e in rec["final"]["result"]])
@@ -22,16 +38,16 @@ def describe(rec):
 
 def replay(c, rp):
     """bin/check C44 --replay replays/C44/<key>.json : run that one program again and let TLC judge it"""
-    rec = codec.run_auth_program(rp["prog"], rp.get("style", "generator"))
-    c.case(key=(rec["style"],) + tuple(rec["prog"]), sample=rec)
-    res, _ = c.trace("AuthStrategy_Trace", [{k: rec[k] for k in ("prog", "events", "final")}],
+    rec = codec.run_auth_calls(rp["progs"], rp.get("style", "generator")) if "progs" in rp else codec.run_auth_program(rp["prog"], rp.get("style", "generator"))
+    c.case(key=repr((rec["style"], rp.get("progs", rp.get("prog")))), sample=rec)
+    res, _ = c.trace("AuthStrategy_Trace", [as_trace(rec)],
                      cfg_text(spec="TSpec", constants={"Outcomes": set(codec.exception_factories()) | set(codec.RETURN_FACTORIES),
-                                                 "Returns": set(codec.RETURN_FACTORIES), "MaxLen": 8, "Mutation": "none"},
+                                                 "Returns": set(codec.RETURN_FACTORIES), "MaxLen": 8, "MaxCalls": 3, "Mutation": "none"},
                               invariants=["Report"]))
     if len(res["DONE"]) != 1:
         raise Machinery("trace validation did not consume the replayed trace")
     c.traces += 1
-    c.verdicts(res["VERDICT"], lambda tid, clause, row: (clause, "%s fails for %s" % (clause, describe(rec)), rec))
+    c.verdicts(res["VERDICT"], lambda tid, clause, row: (clause[0], "%s fails for %s" % (clause[0], describe(rec, clause[1]) if "calls" in rec else describe(rec)), rec))
     c.rule = "replay of one recorded program"
 
 
@@ -40,7 +56,7 @@ def run(c):
         import json
         return replay(c, json.load(open(c.replay_file))["replay"])
     maxlen = 4 if c.quick else 6
-    consts = {"Outcomes": set(MODEL_OUTCOMES), "Returns": MODEL_RETURNS, "MaxLen": maxlen, "Mutation": "none"}
+    consts = {"Outcomes": set(MODEL_OUTCOMES), "Returns": MODEL_RETURNS, "MaxLen": maxlen, "MaxCalls": 1, "Mutation": "none"}
     invs = ["TypeOK", "ResultTracksCalls", "FinalOK", "LoopAgrees"]
     # ---- M: the loop satisfies the statement for every program up to the bound; emits the programs
     r = c.mc_holds("AuthStrategy", cfg_text(constants=consts, invariants=invs + ["Emit"], properties=["CallsLegal"]),
@@ -49,6 +65,12 @@ def run(c):
     nprog = sum(len(MODEL_OUTCOMES) ** n for n in range(maxlen + 1))
     if len(cases) != nprog:
         raise Machinery("expected %d emitted programs, got %d" % (nprog, len(cases)))
+    # successive calls on one strategy object: every call is judged against its own sources, earlier results stay as they were
+    c.mc_holds("AuthStrategy", cfg_text(constants=dict(consts, MaxLen=2, MaxCalls=3), invariants=invs + ["EarlierResultKept"], properties=["CallsLegal"]),
+               name="three successive calls on one strategy object", workers=4)
+    # one AuthResult kept on the strategy and reused by every call: the second call lists the first call's sources as well
+    c.mc("AuthStrategy", cfg_text(constants=dict(consts, MaxLen=2, MaxCalls=2, Mutation="shared_result"), invariants=["FinalOK"]),
+         expect="FinalOK", name="mutation shared_result", workers=4)
     # sensitivity: each mutation of the loop must violate the invariant that states the clause it breaks
     small = dict(consts, MaxLen=3)
     # (only the invariant / action property that states the broken clause is checked: which of several violated ones
@@ -71,15 +93,24 @@ def run(c):
     # ---- TV input: seeded random programs, longer, more exception kinds
     rnd = random.Random(c.seed)
     kinds, rets = sorted(codec.exception_factories()), sorted(codec.RETURN_FACTORIES)
-    for _ in range(600 if c.quick else 20000):
+    for _ in range(400 if c.quick else 20000):
         n = rnd.randint(0, 8)
         p_ok = rnd.choice([0.0, 0.1, 0.3, 0.6])
         prog = [rnd.choice(rets) if rnd.random() < p_ok else rnd.choice(kinds) for _ in range(n)]
         rec = codec.run_auth_program(prog, rnd.choice(codec.AUTH_STYLES))
         batch.append(rec)
         c.case(key=(rec["style"],) + tuple(prog))
-    tv_consts = dict(consts, Outcomes=set(kinds) | set(rets), Returns=set(rets), MaxLen=8)
-    res, _ = c.trace("AuthStrategy_Trace", [{k: rec[k] for k in ("prog", "events", "final")} for rec in batch],
+    # ---- the history of one strategy object: the fixed sequences of calls (all three styles), then seeded random ones
+    for n, progs in enumerate(CALL_SEQUENCES):
+        for style in codec.AUTH_STYLES:
+            batch.append(codec.run_auth_calls(progs, style))
+            c.case(key=repr((style, progs)), n=len(progs))
+    for _ in range(60 if c.quick else 3000):
+        progs = [[rnd.choice(rets) if rnd.random() < 0.3 else rnd.choice(kinds) for _ in range(rnd.randint(0, 4))] for _ in range(rnd.randint(2, 3))]
+        batch.append(codec.run_auth_calls(progs, rnd.choice(codec.AUTH_STYLES)))
+        c.case(key=repr(progs), n=len(progs))
+    tv_consts = dict(consts, Outcomes=set(kinds) | set(rets), Returns=set(rets), MaxLen=8, MaxCalls=3)
+    res, _ = c.trace("AuthStrategy_Trace", [as_trace(rec) for rec in batch],
                      cfg_text(spec="TSpec", constants=tv_consts, invariants=["Report"]))
     if len(res["DONE"]) != len(batch):
         raise Machinery("trace validation consumed %d of %d traces" % (len(res["DONE"]), len(batch)))
@@ -95,21 +126,27 @@ def run(c):
             raise Machinery("TLC flags a trace that equals what TLC emitted: %s" % describe(rec))
         if not same and tid not in flagged:
             c.conformance("differs_from_emitted_unflagged", "differs from the emitted case in a way no clause covers: " + describe(rec))
-    order = sorted(res["VERDICT"], key=lambda row: (len(batch[row[1] - 1]["prog"]), row[1]))   # shortest program first
-    c.verdicts(order, lambda tid, clause, row: (
-        clause, "%s fails for %s%s" % (clause, describe(batch[tid - 1]),
-                                       " [%s]" % batch[tid - 1]["error"] if batch[tid - 1]["error"] else ""),
-        batch[tid - 1]))
+    size = lambda rec: sum(len(p) for p in rec["progs"]) + 100 if "calls" in rec else len(rec["prog"])
+    order = sorted(res["VERDICT"], key=lambda row: (size(batch[row[1] - 1]), row[1]))   # shortest program first
+    def one(tid, clause, row):
+        rec = batch[tid - 1]
+        name, k = clause
+        if "calls" in rec:
+            return name, "%s fails for %s" % (name, describe(rec, k)), {"progs": rec["progs"][:k], "style": rec["style"]}
+        return name, "%s fails for %s%s" % (name, describe(rec), " [%s]" % rec["error"] if rec["error"] else ""), rec
+    c.verdicts(order, one)
     if flagged and not (c.violations or c.known_hits or c.conf):
         raise Machinery("TLC flagged %d traces but no verdict was registered" % len(flagged))
-    for rec in batch:
+    for rec in [x for r in batch for x in (r["calls"] if "calls" in r else [r])]:
         if not rec["transport_ok"]:
             c.conformance("transport_not_passed", "a source was not given the transport: " + describe(rec))
         if rec["style"] == "generator" and rec["produced"] > len(rec["events"]):
             c.conformance("sources_produced_ahead", "the generator was advanced past the last attempted source: " + describe(rec))
     c.rule = ("every list of outcomes over %s up to length %d (TLC-enumerated; generator/list/iterator get_sources) + seeded "
               "random lists of length 0..8 over %d kinds of returned value and %d exception kinds; distinct = distinct (style, outcome list)"
-              % (MODEL_OUTCOMES, maxlen, len(rets), len(kinds)))
+              % (MODEL_OUTCOMES, maxlen, len(rets), len(kinds))
+              + "; + %d fixed sequences of 2-3 authenticate() calls on one strategy object (x 3 styles) and seeded random ones" % len(CALL_SEQUENCES))
     c.extra["exhaustive"] = True
     c.assumptions = ["sources raise subclasses of Exception; a source succeeds when its authenticate() returns",
+                     "successive calls on one strategy object each get their own list of sources; each call is judged against its own sources only (a changed earlier result is a conformance clause)",
                      "AuthResult entries are identified by object identity with the stub sources, their return values and raised instances"]
